@@ -119,7 +119,7 @@ func ValidateLines(ctx *core.Ctx, lines []*Line, label string) (bad []*Line, jud
 		enc(map[string]interface{}{"k": "body", "segs": segs, "err": ln.Obs.Err != "", "out": ln.Obs.Out})
 	}
 	cfg := "INIT Init\nNEXT Next\nINVARIANT Report\nPOSTCONDITION TraceAccepted\nCHECK_DEADLOCK FALSE\n"
-	res, err := ctx.RunTLC(core.TLCOpts{Module: "SoyRawTextTrace", Cfg: cfg, Files: map[string][]byte{"c15_trace.ndjson": buf.Bytes()},
+	res, err := runTLC(ctx, core.TLCOpts{Module: "SoyRawTextTrace", Cfg: cfg, Files: map[string][]byte{"c15_trace.ndjson": buf.Bytes()},
 		Workers: 1, Timeout: 9 * time.Minute, Label: label})
 	if err != nil {
 		return nil, 0, err
@@ -426,12 +426,29 @@ func TraceFamily(ctx *core.Ctx, nRandom, literalLen int) {
 
 // reportBadLines gives every rejected line a structural signature. For
 // bodies whose failure is in a text run the run is isolated (rendered alone
-// between two print tags) and classified like the M2 families do.
+// between print tags, or block comments where the original neighbour was a
+// comment), validated again by TLC and classified like the M2 families do.
 func reportBadLines(ctx *core.Ctx, bad []*Line) {
 	type iso struct {
 		parent *Line
 		line   *Line
 		s      string
+		lo, ro string
+	}
+	const maxDetailed = 300
+	if len(bad) > maxDetailed {
+		// keep an evenly spread sample for the detailed classification; the
+		// others are reported under a signature that no ledger entry matches
+		stride := len(bad)/maxDetailed + 1
+		var keep []*Line
+		for i, ln := range bad {
+			if i%stride == 0 {
+				keep = append(keep, ln)
+			} else {
+				ctx.Violation(core.Sig{Family: originFamily(ln), Feature: "rejected-body-not-classified(too-many)"}, describe(ln), ln)
+			}
+		}
+		bad = keep
 	}
 	var isos []iso
 	var isoLines []*Line
@@ -445,29 +462,36 @@ func reportBadLines(ctx *core.Ctx, bad []*Line) {
 			ctx.Violation(core.Sig{Family: "literal", Feature: "empty-literal-rejected"}, describe(ln), ln)
 			continue
 		case ln.Obs.Compile:
-			ctx.Violation(core.Sig{Family: originFamily(ln), Feature: "valid-body-rejected:" + ln.kinds()}, describe(ln), ln)
+			ctx.Violation(core.Sig{Family: originFamily(ln), Feature: "valid-body-rejected"}, describe(ln), ln)
 			continue
 		case ln.Obs.Err != "":
-			ctx.Violation(core.Sig{Family: originFamily(ln), Feature: "render-error:" + ln.kinds()}, describe(ln), ln)
+			ctx.Violation(core.Sig{Family: originFamily(ln), Feature: "render-error"}, describe(ln), ln)
 			continue
 		}
 		rest[ln] = true
 		if ln.Origin == "special" || ln.Origin == "literal" {
 			continue
 		}
-		for _, g := range ln.Segs {
-			if g.K == "text" {
-				l2 := &Line{Kind: "trace", Origin: "isolated", Segs: []Seg{tagPrint(), text(g.S), tagPrint()}}
-				isos = append(isos, iso{ln, l2, g.S})
-				isoLines = append(isoLines, l2)
+		for i, g := range ln.Segs {
+			if g.K != "text" {
+				continue
 			}
+			is := iso{parent: ln, s: g.S}
+			l, r := tagPrint(), tagPrint()
+			is.lo, is.ro = "X", "X"
+			if i > 0 && strings.HasSuffix(ln.Segs[i-1].K, "com") {
+				l, is.lo = bcom("/* c */"), ""
+			}
+			if i+1 < len(ln.Segs) && strings.HasSuffix(ln.Segs[i+1].K, "com") {
+				r, is.ro = bcom("/* c */"), ""
+			}
+			is.line = &Line{Kind: "trace", Origin: "isolated", Segs: []Seg{l, text(g.S), r}}
+			isos = append(isos, is)
+			isoLines = append(isoLines, is.line)
 		}
 	}
 	explained := map[*Line]bool{}
 	if len(isoLines) > 0 {
-		if len(isoLines) > 400 {
-			isoLines, isos = isoLines[:400], isos[:400]
-		}
 		renderLines(isoLines)
 		ctx.AddEvals(int64(len(isoLines)))
 		bad2, _, err := ValidateLines(ctx, isoLines, "M3-isolate-rejected")
@@ -483,14 +507,16 @@ func reportBadLines(ctx *core.Ctx, bad []*Line) {
 				continue
 			}
 			explained[is.parent] = true
-			want, _ := stripNeighbours(is.line.Pinned, "X", "X")
-			got, ok := stripNeighbours(is.line.Obs.Out, "X", "X")
-			feature := "neighbour-output-changed"
+			want, _ := stripNeighbours(is.line.Pinned, is.lo, is.ro)
+			got, ok := stripNeighbours(is.line.Obs.Out, is.lo, is.ro)
+			sig := core.Sig{Family: "text", Feature: "neighbour-output-changed"}
 			if ok {
-				feature = ClassifyText(is.s, want, got)
+				sig.Feature = ClassifyText(is.s, want, got)
+				if (is.lo == "" || is.ro == "") && strings.HasPrefix(sig.Feature, "ws:") {
+					sig = core.Sig{Family: "comment", Feature: "next-to-comment:" + sig.Feature}
+				}
 			}
-			ctx.Violation(core.Sig{Family: "text", Feature: feature},
-				fmt.Sprintf("text run %+q (isolated from a rejected body): real %+q, rule (A) gives %+q; body: %s", is.s, got, want, describe(is.parent)), is.parent)
+			ctx.Violation(sig, fmt.Sprintf("text run %+q (isolated from a rejected body): real %+q, the pinned reading of rule (A) gives %+q; body: %s", is.s, got, want, describe(is.parent)), is.parent)
 		}
 	}
 	for _, ln := range bad {
@@ -504,11 +530,12 @@ func reportBadLines(ctx *core.Ctx, bad []*Line) {
 		case "literal":
 			sig = core.Sig{Family: "literal", Feature: "not-verbatim"}
 		default:
-			fam := "text"
-			if strings.Contains(ln.kinds(), "com") {
-				fam = "comment"
+			sig = core.Sig{Family: originFamily(ln), Feature: "rejected-body-not-reproduced-in-isolation"}
+			for _, g := range ln.Segs {
+				if g.K == "lit" && !strings.Contains(ln.Obs.Out, g.S) {
+					sig = core.Sig{Family: "literal", Feature: "not-verbatim"}
+				}
 			}
-			sig = core.Sig{Family: fam, Feature: "context-dependent:" + ln.kinds()}
 		}
 		ctx.Violation(sig, describe(ln), ln)
 	}
